@@ -3,7 +3,14 @@ package lalr
 // VerifDigraph (C03-U): for every relation R with E edges over n nodes (endpoints are
 // solver choices), singleton base sets Fp (visiting order fixed w.l.o.g.), Digraph computes
 // F(x) = union of Fp(y) over all y reachable from x (reflexive-transitive closure).
-func VerifDigraph(n, E int) {
+func VerifDigraph(n, E int) { verifDigraphSized(n, E, 0) }
+
+// VerifDigraphSized: as VerifDigraph, but the base set of node i has as many elements as
+// the i-th decimal digit of mask (from the right), built by append (so a set of 3 has
+// spare capacity) - sharing of backing arrays between result sets then shows up.
+func VerifDigraphSized(n, E, mask int) { verifDigraphSized(n, E, mask) }
+
+func verifDigraphSized(n, E, mask int) {
 	// visiting order 0..n-1: without loss of generality, because the relation is arbitrary
 	// (any order with any relation is this order with the relation renamed)
 	var X []int
@@ -23,8 +30,24 @@ func VerifDigraph(n, E int) {
 	}
 	Fp := map[int][]int{}
 	F := map[int][]int{}
+	base := make([][]int, n)
 	for i := 0; i < n; i++ {
-		Fp[i] = []int{100 + i}
+		switch {
+		case mask == 0:
+			base[i] = []int{100 + i}
+		default:
+			size := mask
+			for k := 0; k < i; k++ {
+				size /= 10
+			}
+			size %= 10
+			var b []int
+			for k := 0; k < size; k++ {
+				b = append(b, 100+10*i+k)
+			}
+			base[i] = b
+		}
+		Fp[i] = base[i]
 		F[i] = []int{}
 	}
 	Digraph(X, R, Fp, &F)
@@ -63,16 +86,18 @@ func VerifDigraph(n, E int) {
 	}
 	for i := 0; i < n; i++ {
 		for j := 0; j < n; j++ {
-			has := false
-			for _, v := range F[i] {
-				if v == 100+j {
-					has = true
+			for _, want := range base[j] {
+				has := false
+				for _, v := range F[i] {
+					if v == want {
+						has = true
+					}
 				}
-			}
-			if reach[i][j] {
-				verifAssert(has, "C03: Digraph lost an element of a set reachable through the relation")
-			} else {
-				verifAssert(!has, "C03: Digraph added an element that is not reachable through the relation")
+				if reach[i][j] {
+					verifAssert(has, "C03: Digraph lost an element of a set reachable through the relation")
+				} else {
+					verifAssert(!has, "C03: Digraph added an element that is not reachable through the relation")
+				}
 			}
 		}
 	}
